@@ -393,4 +393,71 @@ theorem readIt_good {α : Type} (cmax : CMax) (files : List (CFile α)) (iit rl 
   rw [hjoin]
   simp [hvdt]
 
+/-! ### D. `cmax` per iteration (/repo bd9646b) -/
+
+/-- the number in `cmax` is never looked at -/
+theorem goodFile_num_irrelevant {α : Type} {m m' : Nat} {f : CFile α} {iit rl : Nat} {var : List String}
+    {sel : String → List (DSet α)} (h : GoodFile (CMax.num m) f iit rl var sel) :
+    GoodFile (CMax.num m') f iit rl var sel := by
+  cases h with
+  | single hc _ _ _ => cases hc
+  | chunked n hc _ _ _ _ => cases hc
+  | perproc m0 k hc hk huniq => exact GoodFile.perproc m' k rfl hk huniq
+
+theorem goodIt_num_irrelevant {α : Type} {m m' : Nat} {files : List (CFile α)} {iit rl : Nat} {var : List String}
+    {A : String → Arr3 α} {tm : Nat} (h : GoodIt (CMax.num m) files iit rl var A tm) :
+    GoodIt (CMax.num m') files iit rl var A tm := by
+  obtain ⟨sel, nz, ny, nx, D, base, gx, gy, gz, hF, hgood, hrest⟩ := h
+  exact ⟨sel, nz, ny, nx, D, base, gx, gy, gz, hF, fun f hf => goodFile_num_irrelevant (hgood f hf), hrest⟩
+
+theorem goodFile_num_fileNo {α : Type} {m : Nat} {f : CFile α} {iit rl : Nat} {var : List String}
+    {sel : String → List (DSet α)} (h : GoodFile (CMax.num m) f iit rl var sel) : ∃ k, f.fileNo = some k := by
+  cases h with
+  | single hc _ _ _ => cases hc
+  | chunked n hc _ _ _ _ => cases hc
+  | perproc m0 k hc hk huniq => exact ⟨k, hk⟩
+
+/-- the layout the reader finds for a well-formed iteration is the layout it was written in -/
+theorem cmaxOf_good {α : Type} (files : List (CFile α)) (iit rl : Nat) (var : List String)
+    (A : String → Arr3 α) (tm : Nat) (h : GoodItAuto files iit rl var A tm) :
+    ∃ cmax, cmaxOf (filesOf files iit) = some cmax ∧ GoodIt cmax files iit rl var A tm := by
+  obtain ⟨cmax, hlay, hgood⟩ := h
+  cases cmax with
+  | inFile =>
+    refine ⟨CMax.inFile, ?_, hgood⟩
+    simp only [LayoutOK] at hlay
+    match hF : filesOf files iit, hlay with
+    | [f], _ => rfl
+  | num m =>
+    simp only [LayoutOK] at hlay
+    have hno : ∀ f ∈ filesOf files iit, ∃ k, f.fileNo = some k := by
+      obtain ⟨sel, _, _, _, _, _, _, _, _, _, hg, _⟩ := hgood
+      exact fun f hf => goodFile_num_fileNo (hg f hf)
+    have hmap : mapOpt (fun f : CFile α => f.fileNo) (filesOf files iit)
+        = some ((filesOf files iit).map fun f => f.fileNo.getD 0) :=
+      mapOpt_eq_map _ _ _ (fun f hf => by obtain ⟨k, hk⟩ := hno f hf; simp [hk])
+    refine ⟨CMax.num (((filesOf files iit).map fun f => f.fileNo.getD 0).foldl max 0), ?_, goodIt_num_irrelevant hgood⟩
+    match hF : filesOf files iit, hlay with
+    | f0 :: f1 :: fs, _ =>
+      rw [hF] at hmap
+      simp only [cmaxOf, hmap, Option.map_some]
+
+/-- **one checkpoint iteration, layout found from its own files, is read back exactly** -/
+theorem readItAuto_good {α : Type} (files : List (CFile α)) (iit rl : Nat) (var : List String)
+    (hn : var.Nodup) (hvar : var ≠ []) (A : String → Arr3 α) (tm : Nat)
+    (h : GoodItAuto files iit rl var A tm) :
+    readItAuto files iit rl var = some (some (tm, var.map fun v => fixij (A v))) := by
+  obtain ⟨cmax, hc, hgood⟩ := cmaxOf_good files iit rl var A tm h
+  have hne : filesOf files iit ≠ [] := by
+    obtain ⟨_, _, _, _, _, _, _, _, _, hF, _⟩ := hgood
+    exact hF
+  unfold readItAuto
+  unfold filesOf at hc hne
+  cases hF : files.filter (fun f => f.itName == iit) with
+  | nil => exact absurd hF hne
+  | cons f0 fs =>
+    rw [hF] at hc
+    simp only [hc]
+    exact readIt_good cmax files iit rl var hn hvar A tm hgood
+
 end AurelVerif.CheckpointLemmas
